@@ -319,3 +319,66 @@ func H_C14_argCount() {
 //
 //gosym:reach rejected
 func H_C14_writerLast() { H_C01_writerNotLast() }
+
+// c14JSONString is an independent rendering of a printable-ASCII string as encoding/json
+// does by default: quoted, '"' and '\\' backslash-escaped, '<', '>' and '&' as \u00XX.
+func c14JSONString(s string) string {
+	out := `"`
+	for i := 0; i < len(s); i++ {
+		switch c := s[i]; c {
+		case '"':
+			out += `\"`
+		case '\\':
+			out += `\\`
+		case '<':
+			out += `\u003c`
+		case '>':
+			out += `\u003e`
+		case '&':
+			out += `\u0026`
+		default:
+			out += string([]byte{c})
+		}
+	}
+	return out + `"`
+}
+
+// H_C14_json: the json and writeJson built-ins produce what encoding/json produces for a
+// string, a slice, a map (keys sorted) and a struct with a tag, in call and piped form, for
+// every printable ASCII byte in the data (the operand is handed to the real encoding/json
+// by the engine; the reference encoder above is independent of it).
+//
+//gosym:reach rendered
+func H_C14_json() {
+	s := ndString("s", 1) + "x"
+	vfAssume(s[0] < 0x7f && s[0] >= 0x20)
+	q := c14JSONString(s)
+	type rec struct {
+		Name string
+		N    int `json:"n"`
+		skip int
+	}
+	cases := [][2]string{
+		{`{{ json(s) }}`, q},
+		{`{{ s | json }}`, q},
+		{`{{ json(sl) }}`, `[` + q + `,"z"]`},
+		{`{{ json(m) }}`, `{"a":2,"b":` + q + `}`},
+		{`{{ writeJson(st) }}`, `{"Name":` + q + `,"n":3}` + "\n"},
+		{`{{ st | writeJson }}|`, `{"Name":` + q + `,"n":3}` + "\n|"},
+		{`{{ json(nilv) }}`, `null`},
+	}
+	c := ndChoice("form", len(cases))
+	set := hxSet([]Option{WithSafeWriter(nil)}, "/j.jet", cases[c][0])
+	vars := make(VarMap)
+	vars.Set("s", s)
+	vars.Set("sl", []string{s, "z"})
+	vars.Set("m", map[string]interface{}{"b": s, "a": 2})
+	vars.Set("st", rec{s, 3, 9})
+	var np *rec
+	vars.Set("nilv", np)
+	out, err := hxExec(set, "/j.jet", vars, nil)
+	vfReach("rendered")
+	vfAssert(err == nil, "renders")
+	vfNote(out)
+	vfAssert(out == cases[c][1], "json / writeJson produce encoding/json's rendering")
+}
